@@ -1,22 +1,132 @@
-import EpModel.Model.Dec.Headers
-import EpModel.Spec.Decode
-/- C01 — first theorems (extended below as they are proved) -/
-namespace EpModel.Props.C01
-open EpModel EpModel.Dec
+import EpModel.Lemmas.DecWithinHeaders
+/-
+  C01 — decoding arbitrary bytes never touches memory outside the given slice.
 
-/-- every strict UDP slice lies inside the slice it was cut from. -/
-theorem udp_within (g : Mem) (o l : Nat) (w : Win) (h : udpFromSlice g o l = .ok w) :
-    o ≤ w.o ∧ w.o + w.l ≤ o + l := by
-  unfold udpFromSlice at h
+  What is proved here (for every memory `g`, every input length `n`, no size bound):
+  * `*_within`: every slice handed back by the 14 whole-packet entry points and the 9 IP boundary
+    implementations lies inside the input window `(0, n)`, and is at least as long as the fixed part
+    its type's unchecked accessors read (Ethernet II 14, SLL 16, VLAN 4, MACsec 6, ARP 8, UDP 8,
+    TCP 20 ≤ header length ≤ slice, ICMP 8).
+  * `ext_iter_never_leaves_slice*`: the unchecked re-walk `Ipv6ExtensionSliceIter` never reaches an
+    out-of-range access on the extension slice of any (strict or lax) slice-mode result — the
+    statement that was false before the repair recorded as F1.
+  What a pure model cannot exhibit (that the compiled code performs only the modelled accesses;
+  placement independence) is validated at run time by the check (guard pages, debug UB checks).
+-/
+namespace EpModel.Props.C01
+open EpModel EpModel.Dec EpModel.Lemmas.Dec
+
+/-! ### every sub-slice handed back lies inside the input -/
+
+theorem sliced_ethernet_within (g : Mem) (n : Nat) (p : Packet) (h : slicedFromEthernet g n = .ok p) :
+    PacketIn p 0 n := slicedFromEthernet_in g n p h
+theorem sliced_linux_sll_within (g : Mem) (n : Nat) (p : Packet) (h : slicedFromLinuxSll g n = .ok p) :
+    PacketIn p 0 n := slicedFromLinuxSll_in g n p h
+theorem sliced_ether_type_within (g : Mem) (et n : Nat) (p : Packet)
+    (h : slicedFromEtherType g et n = .ok p) : PacketIn p 0 n := slicedFromEtherType_in g et n p h
+theorem sliced_ip_within (g : Mem) (n : Nat) (p : Packet) (h : slicedFromIp g n = .ok p) :
+    PacketIn p 0 n := slicedFromIp_in g n p h
+
+theorem lax_sliced_ethernet_within (g : Mem) (n : Nat) (p : Packet)
+    (h : laxSlicedFromEthernet g n = .ok p) : PacketIn p 0 n := laxSlicedFromEthernet_in g n p h
+theorem lax_sliced_ether_type_within (g : Mem) (et n : Nat) :
+    PacketIn (laxSlicedFromEtherType g et n) 0 n := laxSlicedFromEtherType_in g et n
+theorem lax_sliced_ip_within (g : Mem) (n : Nat) (p : Packet) (h : laxSlicedFromIp g n = .ok p) :
+    PacketIn p 0 n := laxSlicedFromIp_in g n p h
+
+theorem headers_ethernet_within (g : Mem) (n : Nat) (x : Headers) (h : phFromEthernet g n = .ok x) :
+    HeadersIn x 0 n := phFromEthernet_in g n x h
+theorem headers_ether_type_within (g : Mem) (et n : Nat) (x : Headers)
+    (h : phFromEtherType g et 0 n = .ok x) : HeadersIn x 0 n := phFromEtherType_in g et 0 n x h
+theorem headers_ip_within (g : Mem) (n : Nat) (x : Headers) (h : phFromIp g n = .ok x) :
+    HeadersIn x 0 n := phFromIp_in g n x h
+
+theorem lax_headers_ethernet_within (g : Mem) (n : Nat) (x : Headers) (h : lphFromEthernet g n = .ok x) :
+    HeadersIn x 0 n := lphFromEthernet_in g n x h
+theorem lax_headers_linux_sll_within (g : Mem) (n : Nat) (x : Headers)
+    (h : lphFromLinuxSll g n = .ok x) : HeadersIn x 0 n := lphFromLinuxSll_in g n x h
+theorem lax_headers_ether_type_within (g : Mem) (et n : Nat) :
+    HeadersIn (lphFromEtherType g et 0 n) 0 n := lphFromEtherType_in g et 0 n
+theorem lax_headers_ip_within (g : Mem) (n : Nat) (x : Headers) (h : lphFromIp g n = .ok x) :
+    HeadersIn x 0 n := lphFromIp_in g n x h
+
+/-- the IP boundary implementations, for any window `(o, l)` of the memory -/
+theorem ip_boundaries_within (g : Mem) (o l : Nat) :
+    (∀ r, ipSliceFromSlice g o l = .ok r → IpIn r o l) ∧
+    (∀ r, ipv4SliceFromSlice g o l = .ok r → IpIn r o l) ∧
+    (∀ r, ipv6SliceFromSlice g o l = .ok r → IpIn r o l) ∧
+    (∀ r st, laxIpSliceFromSlice g o l = .ok (r, st) → IpIn r o l) ∧
+    (∀ r, ipHeadersFromSlice g o l = .ok r → IpIn r o l) ∧
+    (∀ r st, ipHeadersFromSliceLax g o l = .ok (r, st) → IpIn r o l) ∧
+    (∀ r, ipHeadersFromIpv4Slice g o l = .ok r → IpIn r o l) ∧
+    (∀ r, ipHeadersFromIpv6Slice g o l = .ok r → IpIn r o l) :=
+  ⟨ipSlice_in g o l, ipv4Slice_in g o l, ipv6Slice_in g o l, laxIpSlice_in g o l, ipHeaders_in g o l,
+    ipHeadersLax_in g o l, ipHeadersV4_in g o l, ipHeadersV6_in g o l⟩
+
+/-- single-layer slices -/
+theorem single_layers_within (g : Mem) (o l : Nat) :
+    (∀ w, udpFromSlice g o l = .ok w → WIn w o l ∧ 8 ≤ w.l) ∧
+    (∀ w, udpFromSliceLax g o l = .ok w → WIn w o l ∧ 8 ≤ w.l) ∧
+    (∀ hl, tcpFromSlice g o l = .ok hl → 20 ≤ hl ∧ hl ≤ l) ∧
+    (∀ w, icmp4FromSlice g o l = .ok w → w = ⟨o, l⟩ ∧ 8 ≤ l) ∧
+    (∀ w, icmp6FromSlice o l = .ok w → w = ⟨o, l⟩ ∧ 8 ≤ l) ∧
+    (∀ w, arpFromSlice g o l = .ok w → WIn w o l ∧ 8 ≤ w.l) ∧
+    (∀ x, macsecFromSlice g o l = .ok x → ExtIn x o l) ∧
+    (∀ x, laxMacsecFromSlice g o l = .ok x → ExtIn x o l) ∧
+    (∀ hl, ipv4HeaderFromSlice g o l = .ok hl → 20 ≤ hl ∧ hl ≤ l ∧ hl = (g o % 16) * 4) ∧
+    (∀ al, ahFromSlice g o l = .ok al → 12 ≤ al ∧ al ≤ l ∧ al = (g (o + 1) + 2) * 4) :=
+  ⟨udp_in g o l, udpLax_in g o l, tcp_ok g o l, icmp4_in g o l, icmp6_in o l, arp_in g o l,
+    macsec_in g o l, laxMacsec_in g o l, ipv4Header_ok g o l, ah_ok g o l⟩
+
+/-- the ARP accessors (`sender_hw_addr` … `target_protocol_addr`) read `8 + 2·hlen + 2·plen` bytes:
+    exactly the slice that `from_slice` keeps -/
+theorem arp_slice_covers_addresses (g : Mem) (o l : Nat) (w : Win) (h : arpFromSlice g o l = .ok w) :
+    w.l = 8 + g (o + 4) * 2 + g (o + 5) * 2 ∧ w.o = o ∧ w.l ≤ l := by
+  unfold arpFromSlice at h
   split at h
   · contradiction
   · simp only at h
     split at h
     · contradiction
-    · split at h
-      · cases h; simp
-      · split at h
-        · contradiction
-        · cases h; simp; omega
+    · cases h; simp; omega
+
+/-- the MACsec header accessors read byte 14/15 (ether type behind an SCI) or 6..13 (SCI) only if
+    the header slice is that long -/
+theorem macsec_header_covers_accessors (g : Mem) (o l hl : Nat) (h : macsecHeaderFromSlice g o l = .ok hl) :
+    hl ≤ l ∧ (macsecSciPresent (g o) = true → 14 ≤ hl) ∧
+      (macsecUnmodified (g o) = true → macsecSciPresent (g o) = true → hl = 16) ∧
+      (macsecUnmodified (g o) = true → macsecSciPresent (g o) = false → hl = 8) := by
+  have hb := macsecHeader_ok g o l hl h
+  rw [hb.1]
+  refine ⟨by omega, ?_, ?_, ?_⟩ <;> intros <;> simp_all [macsecHeaderLen]
+
+/-! ### the unchecked re-walk iterator -/
+
+/-- for every memory, start number and slice: the extension slice a slice-mode walk (strict or
+    lax — a lax walk may stop early) produces is re-walked by `Ipv6ExtensionSliceIter` without an
+    out-of-range access. -/
+theorem ext_iter_never_leaves_slice (g : Mem) (nh o l : Nat) :
+    ∃ xs, extIterAll g ((extsFirst nh l (extsWalk g false nh o l)).getD 17) o
+      (l - (extsWalk g false nh o l).rest.l) = .ok xs :=
+  extIter_safe_walk g nh o l
+
+/-- the same for the IPv6 results of the lax IP decoders (`LaxIpSlice`, `LaxIpv6Slice`) -/
+theorem ext_iter_never_leaves_slice_lax_ipv6 (g : Mem) (o l : Nat) :
+    ∃ xs, extIterAll g ((ipv6AfterHeaderLax g false o l).1.first.getD 17)
+      (ipv6AfterHeaderLax g false o l).1.exts.o (ipv6AfterHeaderLax g false o l).1.exts.l = .ok xs := by
+  unfold ipv6AfterHeaderLax
+  simp only [mkV6]
+  exact extIter_safe_walk g _ _ _
+
+/-- … and for IPv4 results (empty extension slice) -/
+theorem ext_iter_trivial_ipv4 (g : Mem) (o hl : Nat) (auth : Option Win) (pl : IpPl) :
+    extIterAll g ((mkV4 o hl auth pl).first.getD 17) (mkV4 o hl auth pl).exts.o (mkV4 o hl auth pl).exts.l
+      = .ok [] := by
+  simp [mkV4, noExts, extIterAll_zero]
+
+/-! non-vacuity: a concrete Ethernet II / IPv4 / UDP packet is accepted and its windows are inside -/
+example :
+    (slicedFromEthernet (memOf [0,1,2,3,4,5, 6,7,8,9,10,11, 8,0, 0x45,0,0,28, 0,1,0,0, 64,17,0,0,
+      10,0,0,1, 10,0,0,2, 0,1,0,2,0,8,0,0]) 42).toOption.isSome = true := by decide
 
 end EpModel.Props.C01
